@@ -491,7 +491,10 @@ def exec_cc(cc, op):
     # sizes and lengths are derived here WITHOUT touching the object, so that the call below really is its first one
     n = cc.get_size()
     nu = n - (int(bool(cc.pdC)) + int(bool(cc.pdT)) + int(bool(cc.pdLA)))
-    c = _vec(op, nu, op.get('scale', 1e-2))
+    # the amplitude vector is given either reduced (free amplitudes) or full size (prescribed ones included), with a load fraction
+    full = bool(op.get('full')) and o in ('uvw', 'strain', 'stress')
+    c = _vec(op, n if full else nu, op.get('scale', 1e-2))
+    finc = op.get('finc', 1.)
     if o in ('uvw', 'strain', 'stress'):
         cc.out_num_cores = op['cores']
         pts = np.array(op['pts'], dtype=float).reshape(-1, 2)
@@ -505,16 +508,16 @@ def exec_cc(cc, op):
         xs = pts[:, 0] * L
         ts = (pts[:, 1] * 2 - 1) * np.pi
         if o == 'uvw':
-            return cc.uvw(c, xs=xs, ts=ts)
+            return cc.uvw(c, xs=xs, ts=ts, inc=finc)
         if o == 'strain':
-            return cc.strain(c, xs=xs, ts=ts)
-        return cc.stress(c, xs=xs, ts=ts)
+            return cc.strain(c, xs=xs, ts=ts, inc=finc)
+        return cc.stress(c, xs=xs, ts=ts, inc=finc)
     cc.ni_num_cores = op['cores']
     cc.ni_method = op['method']
     if o == 'calc_fint':
-        return cc.calc_fint(c, silent=True)
+        return cc.calc_fint(c, inc=finc, silent=True)
     if o == 'calc_kT':
-        return cc.calc_kT(c, silent=True)
+        return cc.calc_kT(c, inc=finc, silent=True)
     raise ValueError('unknown op ' + o)
 
 
@@ -535,6 +538,7 @@ def _cc_strategy(draw, tier='quick'):
         f['x'] = f['x'] * 100.
     case['Fc'] = round(draw(gen.fl(100., 1e4)), 1)
     case['pdC'] = False
+    case['thetaTdeg'] = draw(st.sampled_from([0., 0., 0.02]))
     case['nx'] = draw(st.sampled_from([12, 17]))
     case['nt'] = draw(st.sampled_from([16, 21]))
     nl = case['model'] in NL_MODELS
@@ -544,7 +548,8 @@ def _cc_strategy(draw, tier='quick'):
         o = draw(st.sampled_from(names))
         ops.append({'op': o, 'amps': [round(draw(gen.fl(-1., 1.)), 3) for _ in range(5)], 'inc': round(draw(gen.fl(0.1, 1.)), 2),
                     'pts': draw(_points(6)), 'cores': draw(st.integers(1, 8)), 'method': draw(st.sampled_from(['trapz2d', 'simps2d'])),
-                    'scale': draw(st.sampled_from([1e-3, 1e-1]))})
+                    'scale': draw(st.sampled_from([1e-3, 1e-1])), 'full': draw(st.booleans()),
+                    'finc': draw(st.sampled_from([1., 1., 0.5, 0.2]))})
     case['ops'] = ops
     return case
 
